@@ -21,7 +21,7 @@ class Gen:
     def gradient(self):
         r = self.rng
         gid = self.nid('grad')
-        if r.random() < 0.1: gid += r.choice(['.a', '.2', ':x'])      # any XML name is a valid id
+        if r.random() < 0.12: gid += r.choice(['.a', '.2', ':x', '\u00fc', '\u03b1'])      # any XML name is a valid id (also beyond ASCII)
         units = r.choice(['', ' gradientUnits="userSpaceOnUse"', ' gradientUnits="objectBoundingBox"'])
         gt = r.choice(['', ' gradientTransform="translate(1,2)"', ' gradientTransform="scale(2) translate(1 0)"', ' gradientTransform="rotate(45)"'])
         spread = r.choice(['', ' spreadMethod="reflect"', ' spreadMethod="repeat"'])
@@ -86,6 +86,10 @@ class Gen:
         return f'<polyline points="{x},{y} {x + 5},{y} {x + 5},{y + 5}"{p}{t}/>'
 
     def unsupported(self):
+        if self.clip_ids and self.rng.random() < 0.3:
+            # unsupported content may carry references of its own
+            return self.rng.choice(['<image width="5" height="5" clip-path="url(#%s)"/>', '<foreignObject width="5" height="5" clip-path="url(#%s)" transform="translate(1,1)"/>',
+                                    '<a clip-path="url(#%s)"><rect width="2" height="2"/></a>']) % self.rng.choice(self.clip_ids)
         return self.rng.choice(['<filter id="f"><feGaussianBlur stdDeviation="2"/></filter>', '<mask id="m"><rect width="5" height="5"/></mask>',
                                 '<image width="5" height="5"/>', '<foreignObject width="5" height="5"/>', '<a><rect width="2" height="2"/></a>',
                                 '<pattern id="pat" width="4" height="4"><rect width="2" height="2"/></pattern>', '<style>rect{fill:red}</style>', '<switch><g/></switch>'])
@@ -95,6 +99,8 @@ class Gen:
                                 '<foo:bar xmlns:foo="http://foo"><foo:baz/></foo:bar>', '<symbol><rect width="1" height="1"/></symbol>', '\n  '])
 
     def text(self):
+        if self.clip_ids and self.rng.random() < 0.25:
+            return '<text x="1" y="5" clip-path="url(#%s)">hi</text>' % self.rng.choice(self.clip_ids)
         return self.rng.choice(['<text x="1" y="5">hi</text>', '<text><tspan x="1">a</tspan><textPath>b</textPath></text>'])
 
     def group(self, depth):
